@@ -19,10 +19,13 @@ FirstOf(tr, names) == LET S == { i \in 1..Len(tr.ev) : tr.ev[i].e \in names } IN
                       IF S = {} THEN Len(tr.ev) + 1 ELSE CHOOSE x \in S : \A y \in S : x <= y
 
 \* TE: matching is not abandoned by timeout before the timeout has elapsed
-TE(tr) == \A i \in Idx(tr, "Abort") : tr.ev[i].k = "timeout" => tr.ev[i].t >= tr.T - tr.eps
+\*     (whatever the reason given: a client that is silent, sends one chunk or trickles keeps its connection open and
+\*     never fills the buffer, so NOTHING may end matching before the timeout)
+TE(tr) == \A i \in Idx(tr, "Abort") :
+            (tr.ev[i].k = "timeout" \/ tr.scen \in {"silent", "exact", "trickle"}) => tr.ev[i].t >= tr.T - tr.eps
 \* TL: with an undecided route matching ends by T + slack however the client sends: by the
 \*     timeout for a silent or trickling client, by timeout or buffer limit for a flooding one
-TL(tr) == tr.scen \in {"silent", "trickle", "flood"} =>
+TL(tr) == tr.scen \in {"silent", "exact", "trickle", "flood"} =>
             \E i \in Idx(tr, "Abort") :
                /\ tr.ev[i].t <= tr.T + tr.slack
                /\ tr.ev[i].k \in (IF tr.scen = "flood" THEN {"timeout", "full"} ELSE {"timeout"})
